@@ -38,6 +38,19 @@ func isSigned(t types.Type) bool {
 }
 
 func (it *Interp) binop(op token.Token, t types.Type, x, y Val) Val {
+	if op == token.EQL || op == token.NEQ {
+		if _, isSlice := t.Underlying().(*types.Slice); isSlice {
+			// slices are only comparable with nil
+			if xs, ok := x.(*StrV); ok {
+				ys := y.(*StrV)
+				r := Bool(xs.Nil && ys.Nil)
+				if op == token.NEQ {
+					r = Not(r)
+				}
+				return r
+			}
+		}
+	}
 	switch op {
 	case token.EQL:
 		return it.equalVals(x, y)
